@@ -383,7 +383,105 @@ pub fn run(tier: Tier) -> i32 {
             });
         }
     }
-    rep.cov("evaluations", json!(cases.len() * 2));
+    // options that mean nothing to a view leave it as it is: an output destination (documented as ignored when a view
+    // is given), muting, an error exit code, statistics to a file - on a stream of several reader batches
+    let mut neutral_runs = 0u64;
+    {
+        let pattern: Vec<u8> = (0..330).map(|i| (i % 2) as u8).collect();
+        let pk = crate::gen::recognisable_pattern_stream(&pattern, 19_000);
+        let bytes = stream::to_bytes(&pk);
+        let l = pk[0].rdh.link_id;
+        let sv = |a: &[&str]| a.iter().map(|x| x.to_string()).collect::<Vec<String>>();
+        let extras: Vec<Vec<String>> = vec![sv(&["-o", "ignored.raw"]), sv(&["-o", "stdout"]), sv(&["-m"]), sv(&["-E", "7"]), sv(&["-S", "st.json", "-D", "json"]), sv(&["-o", "ignored.raw", "-m", "-E", "7"])];
+        let mut jobs: Vec<(&str, bool, Vec<String>)> = Vec::new();
+        for view in ["rdh", "its-readout-frames"] {
+            for filtered in [true, false] {
+                for e in &extras {
+                    // an output destination needs a filter on the command line
+                    if !filtered && e.iter().any(|x| x == "-o") {
+                        continue;
+                    }
+                    jobs.push((view, filtered, e.clone()));
+                }
+            }
+        }
+        let res = par_map(&jobs, |_, (view, filtered, extra)| -> Option<String> {
+            let run = |extra: &[String]| {
+                let scratch = Scratch::new("c19n");
+                let mut a = vec![scratch.file("in.raw", &bytes).display().to_string()];
+                if *filtered {
+                    a.extend(["--filter-link".to_string(), l.to_string()]);
+                }
+                a.extend(extra.iter().cloned());
+                a.extend(["view".to_string(), view.to_string(), "-d".to_string()]);
+                Run::new(&a).cwd(&scratch.path).run()
+            };
+            let reference = run(&[]);
+            let with = run(extra);
+            if with.crashed() || reference.crashed() {
+                return Some(format!("crash (signal {:?})", with.signal));
+            }
+            if with.status != reference.status || with.stdout != reference.stdout {
+                let (a, b) = (reference.stdout_str().lines().count(), with.stdout_str().lines().count());
+                return Some(format!("exit {:?} vs {:?}, {a} output lines without the option(s), {b} with", reference.status, with.status));
+            }
+            None
+        });
+        for ((view, filtered, extra), r) in jobs.iter().zip(res.iter()) {
+            neutral_runs += 2;
+            if let Some(d) = r {
+                rep.violation(Violation { signature: format!("view:changed-by-a-neutral-option:{view}"), description: format!("{d} [view {view}, filter {filtered}, extra options {:?}, 330 packets]", extra), replay: json!({"view": view, "filtered": filtered, "extra": extra}) });
+            }
+        }
+    }
+    // the terminal: the styled views written to a pseudo-terminal of 200 / 100 / 80 / 60 / 40 columns, with and without
+    // COLUMNS exported, show the same tokens as the same view written to a pipe (nothing is cut off or wrapped away)
+    let mut terminal_runs = 0u64;
+    {
+        let mut jobs: Vec<(u8, &str, u16, bool)> = Vec::new();
+        for fmt in [2u8, 0] {
+            for view in ["rdh", "its-readout-frames", "its-readout-frames-data"] {
+                for cols in [200u16, 100, 80, 60, 40] {
+                    for export in [false, true] {
+                        jobs.push((fmt, view, cols, export));
+                    }
+                }
+            }
+        }
+        let tokens = |out: &[u8]| -> Vec<Vec<String>> { strip_ansi(&String::from_utf8_lossy(out)).lines().map(|l| l.split_whitespace().map(|t| t.to_string()).collect::<Vec<_>>()).filter(|t: &Vec<String>| !t.is_empty()).collect() };
+        let res = par_map(&jobs, |_, (fmt, view, cols, export)| -> Option<String> {
+            let bytes = stream::to_bytes(&alphabet_stream(*fmt, 0));
+            let scratch = Scratch::new("c19t");
+            let a = vec![scratch.file("in.raw", &bytes).display().to_string(), "view".to_string(), view.to_string()];
+            let piped = Run::new(&a).cwd(&scratch.path).run();
+            let env: Vec<(&str, String)> = if *export { vec![("COLUMNS", cols.to_string())] } else { vec![] };
+            let Some((out, status)) = fp_harness::cli::run_on_pty(&a, &scratch.path, *cols, &env) else { return Some("__nopty".into()) };
+            if status != piped.status {
+                return Some(format!("exit {:?} on the terminal, {:?} into a pipe", status, piped.status));
+            }
+            let (tp, tt) = (tokens(&piped.stdout), tokens(&out));
+            if tp != tt {
+                let i = tp.iter().zip(tt.iter()).position(|(x, y)| x != y).unwrap_or(tp.len().min(tt.len()));
+                return Some(format!("row {i} differs: pipe {:?}, terminal {:?} ({} vs {} rows)", tp.get(i), tt.get(i), tp.len(), tt.len()));
+            }
+            None
+        });
+        let mut nopty = false;
+        for ((fmt, view, cols, export), r) in jobs.iter().zip(res.iter()) {
+            terminal_runs += 1;
+            match r {
+                Some(d) if d == "__nopty" => nopty = true,
+                Some(d) => rep.violation(Violation { signature: format!("view:terminal-differs-from-pipe:{view}"), description: format!("{d} [format {fmt}, view {view}, {cols} columns, COLUMNS exported: {export}]"), replay: json!({"view": view, "fmt": fmt, "cols": cols, "export": export}) }),
+                None => {}
+            }
+        }
+        if nopty {
+            rep.machinery_error("no pseudo-terminal could be opened".into());
+        }
+    }
+    rep.cov("terminal_runs", json!(terminal_runs));
+    rep.cov("neutral_option_runs", json!(neutral_runs));
+    rep.cov("evaluations", json!(cases.len() as u64 * 2 + neutral_runs + terminal_runs));
     rep.cov("distinct_nontrivial", json!(cases.len()));
     rep.cov("exhaustive", json!(true));
     rep.cov("rule", json!("alphabet streams (8 RDH variants: versions 6/7, stop 0/1, 7 layer/stave pairs, 8 link ids, 8 trigger kinds, 8 detector-field patterns, orbit / BC extremes; words: 2 IHW, 32 TDH flag/trigger combinations, 24 TDT and 12 DDW0 lane-fault patterns, CDW, 9 data word ids) x data formats 0 / 2 / alternating within one batch x 2 (6) value variants x 3 views x 4 filters x {styled from stdin, -d from a file}; all 16 lane-status nibbles of the detector field (with and without the upper status bits) x 3 views; 6 witnesses x 3 views with ground-truth word types. Every row is compared token by token with the model's decode at that offset"));
